@@ -17,6 +17,7 @@ pub fn def() -> PropDef {
 		replay,
 		shards: default_shards,
 		watchdog_s: default_watchdog,
+		engine: 0,
 	}
 }
 
